@@ -7,7 +7,7 @@ PROPERTY_ID = "C03"
 RULE = ("one-step programs (new [; seek | hook counter preset] ; process): full product of variant x rounds{8,12,20} x key length x "
         "key pattern x nonce pattern x starting block (incl. 2^32-2, 2^32-1 and, through the hook, 64-bit low/high word boundaries; additionally every start 2^k-1, 2^k-2 so that the increment carries out of every bit position) x "
         "data length {0,1,63,64,65,128,129,193} x data pattern, compared with python models of RFC 8439 / Bernstein / XChaCha / XSalsa; "
-        "seek histories (seek;seek and seek;process(l);seek over 10 positions incl. ones differing in the high half) for the 32-bit-counter variants; the same grid is run on the portable ChaCha engine through the hook wrapper; non-trivial = data length > 0; distinct = program text")
+        "every data length 0..=200 at three cursor alignments for every variant; seek histories (seek;seek and seek;process(l);seek over 10 positions incl. ones differing in the high half) for the 32-bit-counter variants; the same grid is run on the portable ChaCha engine through the hook wrapper; non-trivial = data length > 0; distinct = program text")
 ASSUMPTIONS = ["python keystream models validated by RFC 8439 2.3.2/2.4.2, draft-irtf-cfrg-xchacha 2.2.1/A.3.2, ECRYPT Salsa20 vectors and OpenSSL cross vectors",
                "XChaCha uses the 32-bit block counter of draft-irtf-cfrg-xchacha (the crate's seek(u32) and the property's hook list agree)",
                "key, nonce and data content come from the fixed pattern alphabet"]
@@ -84,7 +84,34 @@ def shards(tier):
     for r in (8, 12, 20):
         sh.append(("shard_portable", r))
         sh.append(("shard_seekhist", r))
+    sh.append(("shard_everylen", None))
     return sh
+
+
+def shard_everylen(_, tier):
+    """every data length 0..=200 (thorough 0..=520) in one call, fresh and after 1 / 61 already consumed bytes, in place and buffer to
+    buffer: every residue of the length modulo 8/16/32/64 at three alignments of the keystream cursor (word-at-a-time XOR loops)"""
+    ck = core.Checker(PROPERTY_ID)
+    cases = []
+    top = 521 if tier == "thorough" else 201
+    for v, (keylens, nlen, bits) in VARIANTS.items():
+        kl = keylens[0]
+        st = stream.Stream(v, 20, pat(5, 0, kl), pat(7, 3, nlen))
+        new = "cnew s0 %s 20 %s %s" % (v, P(5, 0, kl), P(7, 3, nlen))
+        for pre in (0, 1, 61):
+            for n in range(0, top):
+                data = pat(6, 3, n)
+                exp = obs_of(stream.xor(data, st.keystream(0, pre, n)))
+                ops, e = [new], ["-"]
+                if pre:
+                    ops.append("process_mut s0 %s" % P(0, 0, pre))
+                    e.append(None)
+                ops.append("%s s0 %s" % ("process" if n % 2 else "process_mut", P(6, 3, n) if n else "h:"))
+                e.append(exp)
+                cases.append((ops, e, {"n": n}))
+    ck.run(cases, nontrivial=_nt)
+    ck.stats.states = len(cases)
+    return ck.stats
 
 
 def shard_seekhist(r, tier):
